@@ -190,6 +190,20 @@ func (s *trSuite) run(label string, steps []tStep) {
 					fail("C16", "event-for-wrong-channel:"+st.Kind, "a callback was reported for a channel that does not own the request")
 				}
 			}
+			// C05 / C16: a data-transfer message riding on a graphsync response or update is handed to the manager
+			// only when the graphsync-authenticated peer it came from is the channel's counterparty
+			if (st.Kind == "gincomingresponse" || st.Kind == "gupdated") && known {
+				other := k.Init
+				if k.Init == 1 {
+					other = k.Resp
+				}
+				for _, c := range o.Calls {
+					if (c.Name == "HRequestReceived" || c.Name == "HResponseReceived") && st.P != other {
+						fail("C05", "message-of-a-stranger-reported:"+st.Kind, "a data-transfer message that arrived on this channel's graphsync request from a peer that is not the channel's counterparty was handed to the manager: a third peer can cancel / complete / fail the channel")
+						fail("C16", "message-of-a-stranger-reported:"+st.Kind, "a graphsync callback carrying a data-transfer message was reported for a channel although the graphsync-authenticated peer is not a party of that channel")
+					}
+				}
+			}
 			// a data-transfer message riding on a graphsync request is reported only for the channel it names, and
 			// that is the channel owning the request
 			for _, c := range o.Calls {
@@ -238,6 +252,19 @@ func (s *trSuite) run(label string, steps []tStep) {
 				default:
 					if len(o.Calls) != 1 || o.Calls[0].Name != "HChannelCompleted" || o.Calls[0].Failed != (st.Status != 0) {
 						fail("C16", "completion-report", "a completed response was not reported exactly once with an error iff it did not complete in full")
+					}
+				}
+			}
+		case "gdone":
+			// C16 / C10 / C09: the end of our own graphsync request is a cancellation when the LAST thing it reported is
+			// one (a restart or a close cancels the previous request; errors reported earlier, such as a block the remote
+			// misses, do not turn that into a failed completion)
+			if st.Done == 1 || st.Done == 2 {
+				for _, c := range o.Calls {
+					if c.Name == "HChannelCompleted" {
+						for _, prop := range []string{"C16", "C10", "C09"} {
+							fail(prop, "cancelled-request-reported-as-completed", "a graphsync request that ended by cancellation was reported to the manager as a (failed) completion: closing or restarting the channel fails it")
+						}
 					}
 				}
 			}
@@ -295,9 +322,19 @@ func runTransport(dir string, seed uint64, tier string) {
 		"request-finished":          {opn, {Kind: "gdone", Rid: 100, Done: 0}},
 		"request-failed":            {opn, {Kind: "gdone", Rid: 100, Done: 3}},
 		"responder-cancelled":       {opn, {Kind: "gdone", Rid: 100, Done: 2}},
+		"cancelled-after-missing-block":           {opn, {Kind: "gdone", Rid: 100, Done: 1, PreErr: true}},
+		"responder-cancelled-after-missing-block": {opn, {Kind: "gdone", Rid: 100, Done: 2, PreErr: true}},
+		"finished-after-missing-block":            {opn, {Kind: "gdone", Rid: 100, Done: 0, PreErr: true}},
 		"incoming-open":             {inc},
 		"incoming-remote-cancelled": {inc, {Kind: "grequestorcancelled", Rid: 1}},
 		"incoming-completed":        {inc, {Kind: "gcompleted", Rid: 1, Status: 0}},
+	}
+	// a third peer answers on our request / updates the counterparty's request (C05)
+	{
+		cr := msgSpec{IsReq: false, Type: mtCancel, Tid: 5}
+		cq := reqOf(mtCancel, 6)
+		s.run("stranger response on our request", []tStep{opn, {Kind: "gincomingresponse", P: 3, Rid: 100, Msg: &cr}, {Kind: "gincomingresponse", P: 2, Rid: 100, Msg: &cr}})
+		s.run("stranger update on the counterparty's request", []tStep{inc, {Kind: "gupdated", P: 3, Rid: 1, Msg: &cq}, {Kind: "gupdated", P: 2, Rid: 1, Msg: &cq}})
 	}
 	for name, pre := range closeStates {
 		kk := k
@@ -625,7 +662,7 @@ func genTransportWalk(r *rng) []tStep {
 			st = tStep{Kind: "grecverror", P: peerTok}
 		case x < 80:
 			if c.out && len(c.rids) > 0 {
-				st = tStep{Kind: "gdone", Rid: c.rids[len(c.rids)-1], Done: r.intn(4)}
+				st = tStep{Kind: "gdone", Rid: c.rids[len(c.rids)-1], Done: r.intn(4), PreErr: r.chance(35)}
 			} else {
 				st = tStep{Kind: "gprocessing", Rid: rid}
 			}
